@@ -44,11 +44,16 @@ class _AutogradWrapper(torch.autograd.Function):
         output: torch.Tensor,
     ) -> torch.Tensor:
         ctx.fw, ctx.bw, x = inputs
+        ctx.x_is_complex = x.is_complex()
         return output
 
     @staticmethod
     def backward(ctx: Any, *grad_output: torch.Tensor) -> tuple[None, None, torch.Tensor]:  # noqa: ANN401
-        return None, None, _AutogradWrapper.apply(ctx.bw, ctx.fw, grad_output[0])
+        grad_x = _AutogradWrapper.apply(ctx.bw, ctx.fw, grad_output[0])
+        if not ctx.x_is_complex and grad_x.is_complex():
+            # the gradient with respect to a real input is the real part of the adjoint applied to the cotangent
+            grad_x = grad_x.real
+        return None, None, grad_x
 
     @staticmethod
     def jvp(ctx: Any, *grad_inputs: Any) -> torch.Tensor:  # noqa: ANN401
